@@ -1,6 +1,8 @@
 package c04
 
 import (
+	"encoding/json"
+	"strings"
 	"testing"
 
 	"verifharness/vt"
@@ -8,3 +10,62 @@ import (
 
 func TestProp(t *testing.T)   { vt.RunAll(t, 1500) }
 func TestReplay(t *testing.T) { vt.ReplayAll(t) }
+
+// Minimal cases of the two findings of this check (they are also the shrunk cases rapid produces).
+//
+// knownCatchFinCase (repaired by /repo f441102, kept as a regression; also in replays/C04/regress/):
+// entry: try{ call A } catch{}; A: try{ throw } catch{ call B } finally{ deploy tiny0 };
+// B: deploy tiny0; throw. B fails, so by the property its deployment is undone and A's finally block deploys tiny0
+// itself; A's pending exception is then caught by the entry script: HALT. Before the repair neo-go gave B no storage layer
+// of its own (ContractHasTryBlock only counted handlers in TRY state), A's finally block saw B's deployment: FAULT "contract already exists".
+const knownCatchFinCase = `{"chain":{"profile":"V1C1"},"prog":{"contracts":[{"methods":[{"ops":[{"k":"try","body":[{"k":"throw"}],"catch":[{"k":"call"}],"fin":[{"k":"deploy"}],"hc":true,"hf":true}]}],"fund":0},{"methods":[{"ops":[{"k":"deploy"},{"k":"throw"}]}],"fund":0}],"entry":[{"k":"try","body":[{"k":"call"}],"hc":true}]},"sender":0,"deployer":0,"noise":null,"pos":0,"pre_fee":-1,"pre_block":-1,"nonce":1,"bnonce":0,"primary":0,"time_d":1}`
+
+// knownPendingCase (listed as known, not repaired: same behaviour as the C# reference):
+// entry: call A; A: try{ try{ throw } finally{ call B } } catch{ notify }; B: put a; notify.
+// B completes normally (while A's exception is pending) and the transaction HALTs, so B's write and notification are
+// effects of a halted transaction; neo-go unloads B with commit=false (vm.unloadContext passes uncaughtException == nil)
+// and drops them.
+const knownPendingCase = `{"chain":{"profile":"V1C1"},"prog":{"contracts":[{"methods":[{"ops":[{"k":"try","body":[{"k":"try","body":[{"k":"throw"}],"fin":[{"k":"call"}],"hf":true}],"catch":[{"k":"notify"}],"hc":true}]}],"fund":0},{"methods":[{"ops":[{"k":"put","b":1},{"k":"notify"}]}],"fund":0}],"entry":[{"k":"call"}]},"sender":0,"deployer":0,"noise":null,"pos":0,"pre_fee":-1,"pre_block":-1,"nonce":1,"bnonce":0,"primary":0,"time_d":1}`
+
+func first(err error) string {
+	s := err.Error()
+	if i := strings.IndexByte(s, '\n'); i >= 0 {
+		s = s[:i]
+	}
+	return s
+}
+
+// TestKnownFindings re-confirms the listed findings (TestProp excludes exactly their shapes while they are listed).
+func TestKnownFindings(t *testing.T) {
+	for _, k := range []struct{ key, js string }{{KnownPendingKey, knownPendingCase}, {KnownCatchFinKey, knownCatchFinCase}} {
+		if !vt.Known(k.key) {
+			t.Logf("%s: not listed as known: TestProp asserts the specification on this shape itself", k.key)
+			continue
+		}
+		var c Case
+		if err := json.Unmarshal([]byte(k.js), &c); err != nil {
+			t.Fatal(err)
+		}
+		_, err := runCase(c, &vt.Obs{}, true)
+		if err == nil {
+			t.Logf("%s: the minimal case no longer fails", k.key)
+			continue
+		}
+		vt.KnownFinding(k.key, first(err))
+	}
+}
+
+// TestMinimalCases runs the two minimal cases strictly and logs the verdicts (documentation / standalone reproduction).
+func TestMinimalCases(t *testing.T) {
+	for _, k := range []struct{ key, js string }{{KnownCatchFinKey, knownCatchFinCase}, {KnownPendingKey, knownPendingCase}} {
+		var c Case
+		if err := json.Unmarshal([]byte(k.js), &c); err != nil {
+			t.Fatal(err)
+		}
+		out, err := runCase(c, &vt.Obs{}, true)
+		if out == nil {
+			t.Fatalf("%s: %v", k.key, err)
+		}
+		t.Logf("%s:\n chain: %s %s\n events: %v\n state: %+v\n expected: %s, state %+v, notifications %v\n verdict: %v", k.key, haltStr(out.halted), out.fault, out.events, out.after, haltStr(out.modelOK), out.expected, out.expected.notes, err)
+	}
+}
